@@ -120,6 +120,11 @@ fn gen_cases(rng: &mut Rng, tier: Tier) -> Vec<Value> {
             if i % 5 == 3 && !ordered {
                 sp.objectives = gen_objectives(rng, &sp);
             }
+            // one problem in ten is solved from an initial solution in which a job of a relation is left unassigned (an order
+            // pinned to a vehicle after the previous plan was made); judged by the partition specification only
+            if i % 10 == 6 && !ordered {
+                return json!({"k": "init", "sp": sp, "row": i, "gens": gens.min(10), "relations": true, "rseed": rng.next() % 1000});
+            }
             json!({"k": "solve", "sp": sp, "row": i, "gens": gens, "relations": rng.chance(1, 4), "rseed": rng.next() % 1000})
         })
         .collect::<Vec<_>>()
@@ -173,9 +178,23 @@ fn exec_history(case: &Value) -> Value {
 }
 
 fn solve_with_config(problem: Arc<vrp_core::models::Problem>, config: &Value) -> Result<Value, String> {
+    solve_with_config_from(problem, config, None)
+}
+
+/// `init`: a pragmatic solution document the run is seeded with (read by the real initial solution reader)
+fn solve_with_config_from(problem: Arc<vrp_core::models::Problem>, config: &Value, init: Option<&Value>) -> Result<Value, String> {
     let text = serde_json::to_string(config).unwrap();
     let config = read_config(BufReader::new(text.as_bytes())).map_err(|e| format!("config: {e}"))?;
-    let builder = create_builder_from_config(problem.clone(), vec![], &config).map_err(|e| format!("builder: {e}"))?;
+    let solutions = match init {
+        Some(doc) => {
+            let text = serde_json::to_string(doc).unwrap();
+            let solution = vrp_pragmatic::format::solution::read_init_solution(BufReader::new(text.as_bytes()), problem.clone(), Arc::new(DefaultRandom::default()))
+                .map_err(|e| format!("init solution: {e}"))?;
+            vec![vrp_core::construction::heuristics::InsertionContext::new_from_solution(problem.clone(), (solution, None), quiet_env())]
+        }
+        None => vec![],
+    };
+    let builder = create_builder_from_config(problem.clone(), solutions, &config).map_err(|e| format!("builder: {e}"))?;
     let solution = Solver::new(problem.clone(), builder.build().map_err(|e| e.to_string())?).solve().map_err(|e| e.to_string())?;
     solution_json(&problem, &solution)
 }
@@ -189,6 +208,7 @@ fn exec(case: &Value) -> Value {
     let gens = case["gens"].as_u64().unwrap() as usize;
     let (name, config) = config_row(row, gens);
     let mut sp_final = Value::Null;
+    let mut init_doc: Option<Value> = None;
     if case["relations"].as_bool().unwrap_or(false) {
         let problem = match sp.read() {
             Ok(p) => p,
@@ -198,6 +218,29 @@ fn exec(case: &Value) -> Value {
         if let Ok((_, sol)) = first {
             sp.relations = derive_relations(&sp, &sol, case["rseed"].as_u64().unwrap_or(0));
             sp_final = serde_json::to_value(&sp).unwrap();
+            if case["k"] == "init" {
+                // the first solution with the LAST customer job of one relation taken out of its tour and listed as unassigned
+                let mut doc = sol.clone();
+                let victim = sp.relations.iter().filter_map(|r| r.jobs.iter().rev().find(|j| sp.jobs.iter().any(|x| &x.id == *j && x.tasks.len() == 1)).cloned()).next();
+                if let Some(victim) = victim {
+                    if let Some(tours) = doc["tours"].as_array_mut() {
+                        for t in tours.iter_mut() {
+                            if let Some(stops) = t["stops"].as_array_mut() {
+                                for st in stops.iter_mut() {
+                                    if let Some(acts) = st["activities"].as_array_mut() {
+                                        acts.retain(|a| a["jobId"] != json!(victim));
+                                    }
+                                }
+                                stops.retain(|st| st["activities"].as_array().is_none_or(|a| !a.is_empty()));
+                            }
+                        }
+                    }
+                    let mut un = doc["unassigned"].as_array().cloned().unwrap_or_default();
+                    un.push(json!({"jobId": victim, "reasons": [{"code": "NO_REASON_FOUND", "description": "unknown"}]}));
+                    doc["unassigned"] = json!(un);
+                    init_doc = Some(doc);
+                }
+            }
         }
     }
     let problem = match sp.read() {
@@ -205,7 +248,10 @@ fn exec(case: &Value) -> Value {
         Err(codes) => return json!({"error": format!("generated problem is invalid: {codes:?}"), "sp_final": sp_final}),
     };
     // thread count of the ambient pool is irrelevant: the config creates its own pools
-    let result = isolated(2, move || solve_with_config(problem, &config));
+    if case["k"] == "init" && init_doc.is_none() {
+        return json!({"error": "generated problem is invalid: no relation job to leave unassigned", "sp_final": sp_final});
+    }
+    let result = isolated(2, move || solve_with_config_from(problem, &config, init_doc.as_ref()));
     match result {
         Err(_) => json!({"panic": "solver panicked", "config": name}),
         Ok(Err(e)) => json!({"error": e, "config": name, "sp_final": sp_final}),
